@@ -131,7 +131,8 @@ End Inverse.
 
 (* ---------- executable denotation used by the correspondence cases --------------------- *)
 (* leaf i acts on integer points: out[k] = sign[k] * x[perm[k]] + off[k] *)
-Record leafdef := { lperm : list nat; lsign : list Z; loff : list Z }.
+(* lcustom: a user-supplied inverse (itself an affine leaf), honoured as given *)
+Record leafdef := { lperm : list nat; lsign : list Z; loff : list Z; lcustom : option (list nat * list Z * list Z) }.
 Definition apply_leaf (d : leafdef) (x : list Z) : list Z :=
   map (fun pso => match pso with (p, s, o) => s * nth p x 0 + o end)
       (combine (combine (lperm d) (lsign d)) (loff d)).
@@ -142,9 +143,13 @@ Definition apply_leaf_inv (d : leafdef) (y : list Z) : list Z :=
   map (fun k => let j := inv_perm_at (lperm d) k 0 in nth j (lsign d) 1 * (nth j y 0 - nth j (loff d) 0))
       (seq 0 (length (lperm d))).
 Definition den_tab (tab : list leafdef) (i : Z) (x : list Z) : list Z :=
-  apply_leaf (nth (Z.to_nat i) tab {| lperm := []; lsign := []; loff := [] |}) x.
+  apply_leaf (nth (Z.to_nat i) tab {| lperm := []; lsign := []; loff := []; lcustom := None |}) x.
 Definition den_inv_tab (tab : list leafdef) (i : Z) (y : list Z) : list Z :=
-  apply_leaf_inv (nth (Z.to_nat i) tab {| lperm := []; lsign := []; loff := [] |}) y.
+  let d := nth (Z.to_nat i) tab {| lperm := []; lsign := []; loff := []; lcustom := None |} in
+  match lcustom d with
+  | Some (p, s, o) => apply_leaf {| lperm := p; lsign := s; loff := o; lcustom := None |} y
+  | None => apply_leaf_inv d y
+  end.
 (* fix_inputs {index: value}: re-insert fixed values at their input positions *)
 Fixpoint insert_at {A} (k : nat) (v : A) (l : list A) : list A :=
   match k, l with O, _ => v :: l | S k', x :: r => x :: insert_at k' v r | S _, [] => [v] end.
